@@ -78,11 +78,16 @@ def check(d, pids=ALL):
     if rc:
         return {"error": out[-400:]}
     try:
-        for pid in pids:
+        from concurrent.futures import ThreadPoolExecutor
+
+        def one(pid):
             rc, out = sh([PY, os.path.join(HERE, "check"), pid, "--tier", "quick"], cwd=HERE)
             viol = [l for l in out.splitlines() if l.startswith("  violated rule")]
-            res[pid] = {"rc": rc, "violations": [v.strip()[:300] for v in viol][:4],
-                        "error": [l for l in out.splitlines() if "ANALYSIS-ERROR" in l][:1]}
+            return pid, {"rc": rc, "violations": [v.strip()[:300] for v in viol][:4],
+                         "error": [l for l in out.splitlines() if "ANALYSIS-ERROR" in l][:1]}
+        with ThreadPoolExecutor(16) as ex:
+            for pid, r in ex.map(one, pids):
+                res[pid] = r
     finally:
         sh(["git", "-C", REPO, "checkout", "--", "."])
     return res
